@@ -19,6 +19,8 @@ The database is modelled as append-only row lists with exactly the queries used:
 `guarded = true` is the code with fixes/C30-one-record-per-run.diff applied (create_plot_log and store_recent_run
 first look the run id up and do nothing when a row exists); `guarded = false` is the code before that repair.
 
+`restart` / `crash` = the aggregator process ends (with / without `Aggregator.shutdown()`) and a new one works on
+the same database: every engine has to register again.
 Abstractions: engine ids are naturals (any number of engines; the guards and the property look at the run_id column
 only, run ids are uuid4 of the engine — a run id reused by another engine is merged, see Properties/C30); the registration is the accepted path (secret ok, no
 websocket connected under that id, version ok); database writes succeed; everything else a run carries (run log,
@@ -47,6 +49,8 @@ inductive Op where
   | disconnect (e : Nat)
   | start (e : Nat) (runId : Nat)       -- RunStartedMsg
   | stop (e : Nat) (runId : Nat)        -- RunStoppedMsg
+  | restart                             -- Aggregator.shutdown(), then a new aggregator process on the same database
+  | crash                               -- a new aggregator process on the same database without shutdown()
 deriving Repr, DecidableEq
 
 inductive Reply where
@@ -108,6 +112,16 @@ def step (guarded : Bool) (s : State) : Op → State × Reply
       | none => (s, .ok)                                    -- "No engine run_data available on run_stopped"
       | some q =>                                           -- … and store_recent_engine: no run to resume
         (setEng (storeRecentRun guarded s e q) e { E with run := none, recentEngineRun := some none }, .ok)
+
+  | .restart =>
+    -- shutdown(): store_recent_engine for every engine in the map (run id of its active run or None); the new
+    -- process starts with an empty `_engine_data_map`
+    ({ s with eng := fun x =>
+        if (s.eng x).registered then { s.eng x with registered := false, run := none, recentEngineRun := some (s.eng x).run }
+        else s.eng x }, .ok)
+  | .crash =>
+    -- nothing is written; the RecentEngines rows are as the last run message / disconnect left them
+    ({ s with eng := fun x => { s.eng x with registered := false, run := none } }, .ok)
 
 def run (guarded : Bool) (s : State) (ops : List Op) : State :=
   ops.foldl (fun s op => (step guarded s op).1) s
